@@ -322,6 +322,10 @@ extract_args(vector_string &args, const string &expr, size_t &p) const {
       }
       p++;
     }
+    if (p > expr.size()) {
+      // (An unterminated literal ran to the end of the expression.)
+      p = expr.size();
+    }
     {
       // Back up to strip any trailing whitespace.
       size_t r = p;
